@@ -786,6 +786,10 @@ static void gen(const char *prop, RunSpec &spec)
 	}
 	int nj = (int)r.range(0, 5), nt = (int)r.range(w == 9 ? 1 : 0, w == 9 ? 8 : 5), nf = (int)r.range(0, w == 9 ? 2 : 4), ns = (int)r.range(0, w == 9 ? 1 : 3);
 	if (w == 9 && r.chance(1, 6)) nt = (int)r.range(8, 40);
+	// C08, timer-heavy runs: many pending timers with adds and deletes, and a short re-arming "heartbeat" timer that keeps the
+	// loop iterating, so that a timer left undispatched after its expiry is noticed by the iteration-based oracle
+	bool theavy = w == 8 && r.chance(1, 6);
+	if (theavy) nt = (int)r.range(7, 24);
 	if (nj + nt + nf + ns == 0) nj = 1;
 	p.set("njobs", nj); p.set("ntimers", nt); p.set("nfds", nf); p.set("nsigs", ns);
 	p.set("max_iter", r.range(50, 600));
@@ -795,6 +799,10 @@ static void gen(const char *prop, RunSpec &spec)
 	uint32_t wj = nj ? 10 + (uint32_t)r.below(30) : 0, wt = nt ? 10 + (uint32_t)r.below(w == 9 ? 80 : 30) : 0,
 		 wf = nf ? 10 + (uint32_t)r.below(30) : 0, ws = ns ? 5 + (uint32_t)r.below(25) : 0, wm = 4 + (uint32_t)r.below(8);
 	bool small_durs = r.chance(1, 2);
+	if (theavy) {
+		p.add(0, K_TIMER_ADD, -1, 0, nj + nt - 1, r.below(3), (int64_t)r.range(1000000, 8000000), 1);
+		wt = 150; small_durs = true; if (nops < 20) nops += 20;
+	}
 	for (int k = 0; k < nops; k++) {
 		int64_t nth; int64_t trg = pick_trigger(r, nobj, nth);
 		uint32_t x = (uint32_t)r.below(wj + wt + wf + ws + wm);
